@@ -43,6 +43,34 @@ SingularVertsDef(F) == {v \in VertSet(F) : ~FanConnected(F, v)}
 
 ClosedManifoldOriented(F) == ClosedOriented(F) /\ SingularVertsDef(F) = {}
 
+\* ---- Mesh.FaceOrientations (C11): "for each group of connected faces, the relative orientation of every
+\* face ... flags indicating whether or not each triangle should be flipped".  groups is a sequence of
+\* sequences of face indices, flags the parallel sequences of booleans.  The groups are the classes of
+\* faces connected through shared edges (the documented domain is manifold meshes: a shared vertex alone
+\* connects nothing there), and flipping the flagged faces leaves no directed edge traversed twice.
+EdgeAdjacent(F, i, j) == i # j /\ Cardinality({F[i][1], F[i][2], F[i][3]} \cap {F[j][1], F[j][2], F[j][3]}) >= 2
+RECURSIVE GrowEdgeComp(_, _)
+GrowEdgeComp(F, C) ==
+    LET N == {i \in 1..Len(F) : i \notin C /\ \E j \in C : EdgeAdjacent(F, i, j)}
+    IN IF N = {} THEN C ELSE GrowEdgeComp(F, C \cup N)
+FlipFaces(F, fl) == [i \in 1..Len(F) |-> IF fl[i] THEN <<F[i][2], F[i][1], F[i][3]>> ELSE F[i]]
+FaceOrientationsDef(F, groups, flags) ==
+    LET G(k) == {groups[k][n] : n \in 1..Len(groups[k])} IN
+    /\ Len(flags) = Len(groups)
+    /\ \A k \in 1..Len(groups) : Len(flags[k]) = Len(groups[k]) /\ Len(groups[k]) = Cardinality(G(k)) /\ G(k) # {}
+    /\ \A i \in 1..Len(F) : Cardinality({k \in 1..Len(groups) : i \in G(k)}) = 1
+    /\ \A k \in 1..Len(groups) : G(k) = GrowEdgeComp(F, {groups[k][1]})
+    /\ LET fl == [i \in 1..Len(F) |-> LET k == CHOOSE k \in 1..Len(groups) : i \in G(k)
+                                           n == CHOOSE n \in 1..Len(groups[k]) : groups[k][n] = i IN flags[k][n]]
+           H == FlipFaces(F, fl) IN
+       \A i \in 1..Len(F) : \A e \in DirEdgesOf(H[i]) : DirUse(H, e[1], e[2]) = 1
+\* the documented domain: orientable manifolds (a boundary is allowed): no edge with more than two faces, no
+\* pinched vertex, some choice of flips is consistent
+ManifoldWithBoundary(F) ==
+    /\ NonDegenerate(F)
+    /\ \A e \in UndEdgeSet(F) : \A a, b \in e : a # b => EdgeUse(F, a, b) <= 2
+    /\ SingularVertsDef(F) = {}
+
 Euler(F) == Cardinality(VertSet(F)) - Cardinality(UndEdgeSet(F)) + Len(F)
 
 \* connected components (by shared vertices) - count only
